@@ -39,7 +39,7 @@ static void  link_after          (Node *base, Node *inserted);
 static void  swap                (Node *n1, Node *n2);
 static void  swap_adjacent       (Node *n1, Node *n2);
 static void  splice_between      (CC_List *list1, CC_List *list2, Node *left, Node *right);
-static bool  link_all_externally (CC_List *l, Node **h, Node **t);
+static bool  link_all_externally (CC_List *dest, CC_List *list, Node **h, Node **t);
 static Node *get_node            (CC_List *list, void *element);
 static enum cc_stat get_node_at  (CC_List *list, size_t index, Node **out);
 static enum cc_stat add_all_to_empty    (CC_List *l1, CC_List *l2);
@@ -280,7 +280,7 @@ static enum cc_stat add_all_to_empty(CC_List *list1, CC_List *list2)
     Node *head = NULL;
     Node *tail = NULL;
 
-    if (!link_all_externally(list2, &head, &tail))
+    if (!link_all_externally(list1, list2, &head, &tail))
         return CC_ERR_ALLOC;
 
     list1->head = head;
@@ -320,7 +320,7 @@ enum cc_stat cc_list_add_all_at(CC_List *list1, CC_List *list2, size_t index)
     Node *head = NULL;
     Node *tail = NULL;
 
-    if (!link_all_externally(list2, &head, &tail))
+    if (!link_all_externally(list1, list2, &head, &tail))
         return CC_ERR_ALLOC;
 
     /* Now we can safely attach the new nodes. */
@@ -364,18 +364,18 @@ enum cc_stat cc_list_add_all_at(CC_List *list1, CC_List *list2, size_t index)
  *
  * @return true if the operation was successful, false otherwise.
  */
-static bool link_all_externally(CC_List *list, Node **h, Node **t)
+static bool link_all_externally(CC_List *dest, CC_List *list, Node **h, Node **t)
 {
     Node *insert = list->head;
 
     size_t i;
     for (i = 0; i < list->size; i++) {
-        Node *new = list->mem_calloc(1, sizeof(Node));
+        Node *new = dest->mem_calloc(1, sizeof(Node));
 
         if (!new) {
             while (*h) {
                 Node *tmp = (*h)->next;
-                list->mem_free(*h);
+                dest->mem_free(*h);
                 *h = tmp;
             }
             return false;
